@@ -424,6 +424,43 @@ func stressScenarios(rng *rand.Rand) map[string]func() int {
 			bp.Render(img, scene)
 			return 0
 		},
+		// one extruded-outline collider queried by eight goroutines; every answer must be the sequential one
+		"profile-collider-shared": func() int {
+			outline := model2d.NewMeshRect(model2d.XY(-1, -1), model2d.XY(1, 1))
+			outline.AddMesh(model2d.NewMeshRect(model2d.XY(2, -1), model2d.XY(3, 2)))
+			coll := model3d.ProfileCollider(model2d.MeshToCollider(outline), -1, 1)
+			type ans struct {
+				n     int
+				first float64
+				ok    bool
+			}
+			rays := make([]*model3d.Ray, 64)
+			want := make([]ans, len(rays))
+			for i := range rays {
+				rays[i] = &model3d.Ray{Origin: model3d.XYZ(-4, float64(i%8)*0.37-1.3, float64(i/8)*0.29-1.1),
+					Direction: model3d.XYZ(1, 0.05*float64(i%5), 0.03*float64(i%7))}
+				rc, ok := coll.FirstRayCollision(rays[i])
+				want[i] = ans{coll.RayCollisions(rays[i], nil), rc.Scale, ok}
+			}
+			bad := 0
+			var mu sync.Mutex
+			parallelDo(8, func(g int) {
+				for rep := 0; rep < 20; rep++ {
+					for k := range rays {
+						i := (k*7 + g*11) % len(rays)
+						cnt := 0
+						n := coll.RayCollisions(rays[i], func(model3d.RayCollision) { cnt++; runtime.Gosched() })
+						rc, ok := coll.FirstRayCollision(rays[i])
+						if n != want[i].n || cnt != n || ok != want[i].ok || (ok && rc.Scale != want[i].first) {
+							mu.Lock()
+							bad++
+							mu.Unlock()
+						}
+					}
+				}
+			})
+			return bad
+		},
 		// several goroutines each build their own scene around one shared, finished joined collider; every
 		// scene must be the one a single caller would have built, and the shared member must stay as it was
 		"joined-shared-child": func() int {
